@@ -398,7 +398,7 @@ class SgzReader(object):
             return decompressed[il_id % self.blockshape[0], 0:self.n_xlines, 0:self.n_samples]
         else:
             # Default to unoptimized general method
-            return np.squeeze(self.read_subvolume(il_id, il_id + 1, 0, self.n_xlines, 0, self.n_samples))
+            return self.read_subvolume(il_id, il_id + 1, 0, self.n_xlines, 0, self.n_samples)[0, :, :]
 
     def get_crossline_index(self, xl_no):
         """Get crossline index from crossline number"""
@@ -443,7 +443,7 @@ class SgzReader(object):
             return decompressed[0:self.n_ilines, xl_id % self.blockshape[1], 0:self.n_samples]
         else:
             # Default to unoptimized general method
-            return np.squeeze(self.read_subvolume(0, self.n_ilines, xl_id, xl_id + 1, 0, self.n_samples))
+            return self.read_subvolume(0, self.n_ilines, xl_id, xl_id + 1, 0, self.n_samples)[:, 0, :]
 
     def get_zslice_index(self, zslice_no, include_stop=False):
         """Get zslice index from sample time/depth"""
@@ -495,7 +495,7 @@ class SgzReader(object):
 
         else:
             # Default to unoptimized general method
-            return np.squeeze(self.read_subvolume(0, self.n_ilines, 0, self.n_xlines, zslice_id, zslice_id + 1))
+            return self.read_subvolume(0, self.n_ilines, 0, self.n_xlines, zslice_id, zslice_id + 1)[:, :, 0]
 
     def read_correlated_diagonal(self, cd_id,
                                  min_cd_idx=None, max_cd_idx=None,
